@@ -187,6 +187,21 @@ NOTES = {
     "C16-f": ("descriptions kept in a process-wide table under a hash of the text, overwritten in place on collision: exactly one pair of reachable descriptions collides", "first run: only the regenerated inventory broke (no-failing-input-found); the failing calls now produce thirteen descriptions (six more through set_raw_name and rename) and every ordered pair of them is scheduled on two threads - now caught with an input"),
     "C17-f": ("from_string keeps a per-thread memo of the last record keyed on its blank-separated fields: blanks inside a quoted TXT string are data", "first run: only the regenerated inventory broke (no-failing-input-found); added near-duplicate pairs (y = x with one small edit: a blank inserted / changed / removed, preferably inside quotes; a character or a bit changed) - now caught with an input"),
     "C18-f": ("hop counter counted up in 8 bits and tested only at a label", "caught at once (runs of 400 / 4000 back-to-back pointers)"),
+    "C01-g": ("EDNS option steps bounded by the end of the packet instead of the end of the OPT data: an option overrunning an OPT record that is not last walks into the next record", "caught at once (OPT in every position with lying option lengths)"),
+    "C02-g": ("after a pointer the walk's barrier is the pointer's own position instead of the start of its segment: a label reached through a pointer may run forward over the referring name", "caught at once (misaligned pointer targets)"),
+    "C03-g": ("A / AAAA records of class ANY / NONE with no data accepted; the address accessors still read 4 / 16 bytes", "MISSED at first; added the field matrix (every type with a rule of its own x classes IN / CH / HS / NONE / ANY / 0 / 65535 x declared lengths 0, 1, natural, natural + 1, last record or not) - now caught"),
+    "C04-g": ("qtype_qclass with a cold cache locates type and class with the after-decompression length of the question name", "caught at once (questions written as pointers into the header)"),
+    "C05-g": ("new assertion on the expanded SOA data length off by one: two names of 255 bytes each panic", "MISSED at first; added SOA records with both names at 253 / 254 / 255 bytes (in full, and the second as a pointer to the first), MX / NS with a maximal name under a maximal owner - now caught"),
+    "C06-g": ("case-folding table folds one octet too many: `[` equals `{`", "caught at once (full accepted alphabet in names)"),
+    "C08-g": ("insert_rr recomputes the view only after the size test: a refused insertion into a compressed object whose pointer-free form is too large leaves the decompressed bytes with the offsets of the compressed layout", "first run: correspondence broke without a failing input for C08's own oracle (answers-only packets have the same offsets either way); added inflating packets with authority, additional and OPT records after the answers to C08 and C09 - now caught"),
+    "C09-g": ("the size test of insert_rr runs before the decompression it triggers", "MISSED by C09 at first (C10 has the family); inflating packets added to C09 - now caught"),
+    "C10-g": ("first half of the size test evaluated on the compressed length, the subtraction on the decompressed one", "caught at once"),
+    "C11-g": ("current_section() fails for every record of an object without a question", "MISSED at first; a deleting walk over a record section now follows the deletion of the question - now caught"),
+    "C12-g": ("the C table's set_flags masks its argument with the named flag constants, which lack the Z bit", "MISSED at first (the sweep called the Rust setters); every 64th flag word now also goes through the three setters of the C function table - now caught"),
+    "C13-g": ("decimal fields refused beyond ten digits, counting leading zeros", "MISSED at first; TTL, SOA counters and MX preference are now written with leading zeros (up to 14 digits) in one text out of eight - now caught"),
+    "C14-g": ("final length test measures the whole destination vector, not the name just appended", "caught at once"),
+    "C16-g": ("error objects handed out from a global free list; a failing call without an error pointer recycles the thread's object while the thread keeps using it", "first run: the inventory obligation broke and the search reported a hang of the 131073-thread case; added failing calls made without an error pointer to the schedules (step kind n) - now caught with a proper input"),
+    "C17-g": ("C table set_name memoises the last conversion under the concatenation of text name and raw zone", "first run: only the inventory obligation broke (no-failing-input-found); added set_name pairs whose two arguments concatenate to the same bytes with the boundary moved by one (operation PF: parse + one table call) - now caught"),
     "C17-c": ("compress() output built in a thread-local scratch buffer that is not cleared above 64 KiB of capacity", "first run: only the regenerated inventory obligation broke; added small operations right after 33 .. 65 KB ones - now caught with an input"),
 }
 
